@@ -136,7 +136,9 @@ struct Sum {
   Q sh = 0;      // bound for the second derivatives: sum 2(n+2)/r * gradient pieces (for position-rounding allowances)
   Q ssup = 0;    // sum q^(n+1) B_n (n+1)^2 (|C|+|S|)   : floor for the value   (multiply by eps^1.5)
   Q ssupg = 0;   // same * (n+1)/r                       : floor for the gradient
+  int nmax = 0;  // highest degree with a non-zero coefficient
   void add(const Term& t, Q C, Q S, Q absC, Q absS, Q r) {
+    if ((absC != 0 || (t.m && absS != 0)) && t.n > nmax) nmax = t.n;
     v += C * t.c + S * t.s;
     for (int i = 0; i < 3; ++i) g[i] += C * t.gc[i] + S * t.gs[i];
     Q w = absC + (t.m ? absS : Q(0));
@@ -145,6 +147,7 @@ struct Sum {
   }
   void axpy(Q f, const Sum& o) {        // this += f * o   (magnitudes with |f|)
     v += f * o.v; for (int i = 0; i < 3; ++i) g[i] += f * o.g[i];
+    if (f != 0 && o.nmax > nmax) nmax = o.nmax;
     Q af = qabs(f); sv += af * o.sv; sg += af * o.sg; sh += af * o.sh; ssup += af * o.ssup; ssupg += af * o.ssupg;
   }
 };
